@@ -88,11 +88,22 @@ def check(case, ev):
     nt = False
     n = 0
     root_changed = False
+    carriers = {}
     for env in common.assignments(case, lv):
         n += 1
         if n > 64:
             break
         interp = {i: _form(env[i], forms[(j + n) % len(forms)]) for j, i in enumerate(ids)}
+        for i in ids:
+            # a caller that keeps ONE Bounds object per variable and updates it in place between calls (Bounds is a plain
+            # mutable dataclass)
+            if hasattr(interp[i], "lower") and n % 2 == 0:
+                if i in carriers:
+                    carriers[i].lower, carriers[i].upper = min(env[i], carriers[i].lower), max(env[i], carriers[i].upper)   # never lower > upper on the way
+                    carriers[i].lower = carriers[i].upper = env[i]
+                    interp[i] = carriers[i]
+                else:
+                    carriers[i] = interp[i]
         for cid, val in overrides.items():
             interp[cid] = _form(val, ov_forms[cid] if ov_forms[cid] < 3 else 0)
         mm = build.model(spec) if overrides else m
